@@ -17,7 +17,9 @@ import (
 	"github.com/miekg/dns"
 	"pgregory.net/rapid"
 
+	"verif/harness/gen"
 	"verif/harness/pbt"
+	wm "verif/harness/wiremodel"
 )
 
 // ---------------------------------------------------------------------------------------------
@@ -41,7 +43,7 @@ type tsigSpec struct {
 }
 
 type faultSpec struct {
-	Kind string // "" id rcode nosoa cut stall runt maclen alter strip wrongkey chain stale drop dup swap
+	Kind string // "" id rcode nosoa cut stall runt maclen alter strip wrongkey otherkey chain stale drop dup swap
 	Env  int    // envelope index (taken modulo the number of envelopes)
 	K    int    // cut: octet (mod stream length); alter: offset (mod covered region)
 	Val  int    // id: xor mask; rcode: code; alter: xor mask; nosoa/chain/wrongkey: variant
@@ -49,7 +51,8 @@ type faultSpec struct {
 
 type xferCase struct {
 	Mode          string // axfr | ixfr | uptodate | axfrstyle
-	Zone          string
+	Zone          string // the zone name as the sender spells it (owner of its SOA records)
+	QName         string // the zone name as the REQUEST spells it ("" = exactly as Zone): the same name with other letter case and/or \DDD, \c escapes
 	QID           uint16
 	Serial        uint32 // the server's (new) serial
 	QSerial       uint32 // serial in the IXFR request
@@ -57,6 +60,8 @@ type xferCase struct {
 	Diffs         []diffSpec
 	Sizes         []int // records per envelope
 	Tsig          *tsigSpec
+	OtherKey      *tsigSpec // a second key the receiver holds as well (Transfer.TsigSecret has both); the request is signed with Tsig
+	Reuse         int       // this many complete fault-free transfers were made with the SAME dns.Transfer value (a fresh connection each) before the one under observation
 	Fault         faultSpec
 	Sender        string // harness | library | libout
 	Seg           []int
@@ -76,6 +81,21 @@ type xferCase struct {
 const watchdog = 30 * time.Second
 
 const knownWrap = "ixfr-serial-wrap"
+
+// known findings of round 7 (see KNOWN_FINDINGS.txt)
+const knownOtherKey = "envelope-signed-with-another-configured-key"
+const knownReuse = "reused-transfer-signs-timers-only"
+
+// otherKeyMust: the envelope is signed with a key other than the one the transfer was requested with
+// ("wrongly keyed"), although the receiver knows that key too. Val%3 == 2 keeps key name and secret
+// and only switches the HMAC algorithm: the sender holds the right secret, so that is not asserted.
+func (f faultSpec) otherKeyMust() bool { return f.Kind == "otherkey" && f.Val%3 != 2 }
+
+// reuseTimersClass: an earlier transfer on the same Transfer value has switched it to timers-only digests.
+func (c xferCase) reuseTimersClass() bool { return c.Reuse > 0 && c.Tsig != nil && c.Mode != "uptodate" }
+
+// reuseTimersClass2: the same for a case whose Reuse is still to be set.
+func (c xferCase) reuseTimersClass2() bool { c.Reuse = 1; return c.reuseTimersClass() }
 
 func (r recSpec) rr(zone string) dns.RR {
 	owner := zone
@@ -175,6 +195,35 @@ func (c xferCase) rebased() xferCase {
 
 func soaSpec(serial uint32) recSpec { return recSpec{T: "SOA", V: serial} }
 
+// qname is the spelling of the zone name in the question of the request (and, echoed, of every answer).
+func (c xferCase) qname() string {
+	if c.QName != "" {
+		return c.QName
+	}
+	return c.Zone
+}
+
+// qnameClass: how the question's spelling differs from the sender's (domain names compare
+// case-insensitively, RFC 1035 2.3.3 / RFC 4343; \DDD and \c are mere spellings of an octet).
+func (c xferCase) qnameClass() string {
+	if c.QName == "" || c.QName == c.Zone {
+		return "qname=as-served"
+	}
+	q, _, err1 := wm.UnescName(c.QName)
+	z, _, err2 := wm.UnescName(c.Zone)
+	if err1 != nil || err2 != nil || !q.Lower().Equal(z.Lower()) {
+		return "qname=other-name"
+	}
+	esc := strings.Contains(c.QName, `\`)
+	switch {
+	case !q.Equal(z) && esc:
+		return "qname=case+escapes"
+	case !q.Equal(z):
+		return "qname=case"
+	}
+	return "qname=escapes"
+}
+
 // flat is the record sequence the sender transmits (RFC 5936 §2.2, RFC 1995 §4).
 func (c xferCase) flat() []recSpec {
 	var out []recSpec
@@ -227,6 +276,9 @@ func (c xferCase) valid() string {
 	default:
 		return "mode"
 	}
+	if c.qnameClass() == "qname=other-name" {
+		return "the question must name the zone (other letter case / escapes only)"
+	}
 	for _, r := range c.Recs {
 		if r.T == "SOA" {
 			return "zone body must not contain an SOA"
@@ -255,6 +307,20 @@ func (c xferCase) valid() string {
 			return "tsig key"
 		}
 	}
+	if o := c.OtherKey; o != nil {
+		if c.Tsig == nil || len(o.Secret) == 0 || o.KeyName != strings.ToLower(o.KeyName) || o.KeyName == c.Tsig.KeyName {
+			return "second key: needs TSIG and another key name"
+		}
+	}
+	if c.Fault.Kind == "otherkey" && (c.OtherKey == nil || c.Sender != "harness") {
+		return "fault otherkey needs a second configured key"
+	}
+	if c.Reuse < 0 || c.Reuse > 3 || (c.Reuse > 0 && (c.Transport != "" || c.Dial != "" || c.BadRequest != "" || c.timed() || c.Sender == "libout")) {
+		return "reuse: 0..3 earlier transfers, in-memory stream, library receiver"
+	}
+	if c.Reuse > 0 && c.Sender == "library" && !c.multi() {
+		return "reuse with the library sender: several requests on one connection"
+	}
 	if c.Dial != "" {
 		if (c.Dial != "tcp" && c.Dial != "refused") || c.Sender != "harness" || c.Transport != "" || c.timed() || c.Fault.Kind == "stall" || len(c.Seg) > 0 {
 			return "dial cases: harness sender on a stream, no stall / pacing / segmentation"
@@ -274,7 +340,7 @@ func (c xferCase) valid() string {
 		return "bad request kind"
 	}
 	if c.Transport != "" {
-		ok := map[string]bool{"": true, "id": true, "rcode": true, "nosoa": true, "alter": true, "strip": true, "wrongkey": true, "chain": true, "stale": true, "maclen": true}
+		ok := map[string]bool{"": true, "id": true, "rcode": true, "nosoa": true, "alter": true, "strip": true, "wrongkey": true, "otherkey": true, "chain": true, "stale": true, "maclen": true}
 		if c.Transport != "dgram" || c.Mode == "axfr" || c.Sender != "harness" || !ok[c.Fault.Kind] || c.timed() || c.UDPSize < 0 || c.UDPSize > 65535 {
 			return "datagram transport: IXFR question, harness sender, envelope-level faults only"
 		}
@@ -389,15 +455,19 @@ func (c xferCase) key() tsigKey {
 }
 
 func (c xferCase) secrets() map[string]string {
-	return map[string]string{c.Tsig.KeyName: base64.StdEncoding.EncodeToString(c.Tsig.Secret)}
+	m := map[string]string{c.Tsig.KeyName: base64.StdEncoding.EncodeToString(c.Tsig.Secret)}
+	if c.OtherKey != nil {
+		m[c.OtherKey.KeyName] = base64.StdEncoding.EncodeToString(c.OtherKey.Secret)
+	}
+	return m
 }
 
 func (c xferCase) query() *dns.Msg {
 	q := new(dns.Msg)
 	if c.Mode == "axfr" {
-		q.SetAxfr(c.Zone)
+		q.SetAxfr(c.qname())
 	} else {
-		q.SetIxfr(c.Zone, c.QSerial, "ns."+strings.TrimPrefix(c.Zone, "."), "hostmaster."+strings.TrimPrefix(c.Zone, "."))
+		q.SetIxfr(c.qname(), c.QSerial, "ns."+strings.TrimPrefix(c.Zone, "."), "hostmaster."+strings.TrimPrefix(c.Zone, "."))
 	}
 	q.Id = c.QID
 	if c.Tsig != nil {
@@ -522,7 +592,7 @@ func packEnvelope(c xferCase, recs []recSpec) []byte {
 	if c.Mode == "axfr" {
 		qt = dns.TypeAXFR
 	}
-	m.Question = []dns.Question{{Name: c.Zone, Qtype: qt, Qclass: dns.ClassINET}}
+	m.Question = []dns.Question{{Name: c.qname(), Qtype: qt, Qclass: dns.ClassINET}} // the question is echoed as asked; the records are the sender's
 	for _, r := range recs {
 		m.Answer = append(m.Answer, r.rr(c.Zone))
 	}
@@ -639,6 +709,31 @@ func buildPlan(c xferCase, reqMAC []byte, now uint64) plan {
 				nameOnWire = "other-" + key.Name
 			}
 			p.firstBad, p.strong, p.prefix = i, true, true
+		}
+		if hit && f.Kind == "otherkey" {
+			// correctly chained and timed, but keyed otherwise than the request (RFC 8945 5.3: a response is
+			// signed with the key and algorithm of the request)
+			switch f.Val % 3 {
+			case 0: // the other key the receiver holds, algorithm of the request
+				k = tsigKey{Name: c.OtherKey.KeyName, Alg: key.Alg, Secret: c.OtherKey.Secret}
+				nameOnWire = k.Name
+				p.alterAt = "other-configured-key"
+			case 1: // the other key with its own algorithm
+				k = tsigKey{Name: c.OtherKey.KeyName, Alg: c.OtherKey.Alg, Secret: c.OtherKey.Secret}
+				nameOnWire = k.Name
+				p.alterAt = "other-configured-key+its-algorithm"
+			default: // key of the request, another HMAC algorithm
+				for a, alg := range algs {
+					if alg == key.Alg {
+						k.Alg = algs[(a+1+f.K%(len(algs)-1))%len(algs)]
+					}
+				}
+				p.alterAt = "same-key-other-algorithm"
+			}
+			p.prefix = true
+			if f.otherKeyMust() {
+				p.firstBad, p.strong = i, true
+			}
 		}
 		out, mac, tsigOff := tsigSign(mb, k, nameOnWire, o)
 		macs = append(macs, mac)
@@ -929,9 +1024,35 @@ func runHarnessSender(c xferCase) (result, plan, error) {
 	if c.Dial != "" {
 		return runDial(c)
 	}
+	tr := newTransfer(c, nil)
+	// Reuse: the caller keeps ONE dns.Transfer value (its configuration) and hands it a fresh connection
+	// for every transfer. Every transfer is a transaction of its own: the earlier ones must complete, and
+	// the request of each must be signed as a request (RFC 8945 5.1/4.3.3: no prior MAC, full variables).
+	for k := 0; k < c.Reuse; k++ {
+		pc := c
+		pc.Fault, pc.Trailer, pc.Seg, pc.Reuse = faultSpec{}, false, nil, 0
+		tr.ReadTimeout = 20 * time.Second
+		r, _, err := streamOnce(pc, tr)
+		if err == nil {
+			err = checkComplete(pc, r)
+		}
+		if err != nil {
+			return result{}, plan{}, pbt.Errf("transfer %d of %d made with one dns.Transfer value (fresh connection each): %v", k+1, c.Reuse+1, err)
+		}
+	}
+	tr.ReadTimeout = newTransfer(c, nil).ReadTimeout
+	r, p, err := streamOnce(c, tr)
+	if err != nil && c.Reuse > 0 {
+		err = pbt.Errf("transfer %d of %d made with one dns.Transfer value (fresh connection each): %v", c.Reuse+1, c.Reuse+1, err)
+	}
+	return r, p, err
+}
+
+// streamOnce: one transfer over a fresh in-memory stream, received by tr.
+func streamOnce(c xferCase, tr *dns.Transfer) (result, plan, error) {
 	cli, srv := newPipe()
 	cli.in.seg = c.Seg
-	tr := newTransfer(c, cli)
+	tr.Conn = &dns.Conn{Conn: cli, UDPSize: uint16(c.UDPSize)}
 	ch, err := tr.In(c.query(), "mem")
 	if err != nil {
 		return result{}, plan{}, fmt.Errorf("Transfer.In returned %v before anything was sent", err)
@@ -946,7 +1067,10 @@ func runHarnessSender(c xferCase) (result, plan, error) {
 		// the request itself must be signed as RFC 8945 says (no prior MAC, full variables)
 		mac, err := refVerify(req, c.key(), nil, false)
 		if err != nil {
-			return result{}, plan{}, fmt.Errorf("request TSIG: %v", err)
+			srv.Close()
+			for range ch { // let the receiver run into the end of the stream
+			}
+			return result{}, plan{}, fmt.Errorf("request TSIG: a sender verifying per RFC 8945 (request: no prior MAC, complete TSIG variables) refuses it: %v", err)
 		}
 		reqMAC = mac
 	}
@@ -1358,8 +1482,24 @@ func checkXfer(c xferCase) error {
 	if c.Mode == "ixfr" {
 		classes = append(classes, fmt.Sprintf("diffs=%d", len(c.Diffs)))
 	}
+	if qc := c.qnameClass(); qc != "qname=as-served" {
+		mode := "ixfr"
+		if c.Mode == "axfr" {
+			mode = "axfr"
+		}
+		classes = append(classes, qc, qc+"/question="+mode)
+	}
 	if c.wrapClass() {
 		classes = append(classes, "serial-wrap")
+	}
+	if c.OtherKey != nil {
+		classes = append(classes, "receiver-holds-two-keys")
+	}
+	if c.Reuse > 0 {
+		classes = append(classes, fmt.Sprintf("reused-transfer=%d/tsig=%v/sender=%s", c.Reuse, c.Tsig != nil, c.Sender))
+		if c.reuseTimersClass() {
+			classes = append(classes, "reused-transfer/after-a-signed-multi-envelope-state")
+		}
 	}
 	if c.Transport == "dgram" {
 		sz := 0
@@ -1656,14 +1796,60 @@ func genSizes(t *rapid.T, n int) []int {
 	return out
 }
 
+// genQName: another spelling of the zone name for the question - letter case (all letters flipped,
+// or a generated subset) and/or \DDD / \c escapes of single octets. The sender keeps its own spelling.
+func genQName(t *rapid.T, zone string) string {
+	n := wm.MustName(zone)
+	flipAll := func() wm.Name {
+		o := n.Clone()
+		for _, l := range o {
+			for i, ch := range l {
+				if ch >= 'a' && ch <= 'z' || ch >= 'A' && ch <= 'Z' {
+					l[i] = ch ^ 0x20
+				}
+			}
+		}
+		return o
+	}
+	var q string
+	switch rapid.IntRange(0, 4).Draw(t, "qkind") {
+	case 0:
+		q = wm.EscName(flipAll())
+	case 1:
+		q = wm.EscName(n.Lower())
+	case 2:
+		q = wm.EscName(gen.FlipCase(t, n))
+	case 3:
+		q = gen.SpellName(t, n)
+	default:
+		q = gen.SpellName(t, gen.FlipCase(t, n))
+	}
+	if q == zone {
+		q = wm.EscName(flipAll())
+	}
+	return q
+}
+
 var strongPlain = []string{"id", "rcode", "nosoa", "cut", "cut", "drop", "runt"}
-var strongTsig = []string{"id", "rcode", "nosoa", "cut", "alter", "alter", "strip", "wrongkey", "chain", "chain", "drop", "dup", "swap", "stale", "runt", "maclen", "maclen"}
+var strongTsig = []string{"id", "rcode", "nosoa", "cut", "alter", "alter", "strip", "wrongkey", "otherkey", "otherkey", "chain", "chain", "drop", "dup", "swap", "stale", "runt", "maclen", "maclen"}
+var otherKeyNames = []string{"other.", "xfr-key2.", "k.example.org."}
+
+func genOtherKey(t *rapid.T) *tsigSpec {
+	return &tsigSpec{
+		KeyName: rapid.SampledFrom(otherKeyNames).Draw(t, "key2"),
+		Alg:     rapid.SampledFrom(algs).Draw(t, "alg2"),
+		Secret:  rapid.SliceOfN(rapid.Byte(), 1, 64).Draw(t, "secret2"),
+	}
+}
 var weakPlain = []string{"alter", "dup", "swap"}
 
 func genCase(t *rapid.T) xferCase {
 	var c xferCase
 	c.Mode = rapid.SampledFrom([]string{"axfr", "axfr", "axfr", "ixfr", "ixfr", "ixfr", "uptodate", "axfrstyle", "axfrstyle"}).Draw(t, "mode")
 	c.Zone = rapid.SampledFrom(zones).Draw(t, "zone")
+	if c.Zone != "." && rapid.IntRange(0, 2).Draw(t, "qspell") == 0 {
+		c.QName = genQName(t, c.Zone)
+	}
 	c.QID = uint16(rapid.IntRange(0, 65535).Draw(t, "qid"))
 	base := uint32(rapid.IntRange(0, 4_000_000_000).Draw(t, "serial"))
 	switch rapid.IntRange(0, 9).Draw(t, "serial-region") {
@@ -1736,6 +1922,9 @@ func genCase(t *rapid.T) xferCase {
 			Alg:     rapid.SampledFrom(algs).Draw(t, "alg"),
 			Secret:  rapid.SliceOfN(rapid.Byte(), 1, 64).Draw(t, "secret"),
 		}
+		if rapid.IntRange(0, 3).Draw(t, "two-keys") == 0 {
+			c.OtherKey = genOtherKey(t) // the receiver holds a second key; nothing else changes
+		}
 	}
 	c.Sender = "harness"
 	nenv := len(c.Sizes)
@@ -1752,6 +1941,17 @@ func genCase(t *rapid.T) xferCase {
 		f.Val = rapid.IntRange(1, 65535).Draw(t, "fval")
 		if (f.Kind == "cut") && rapid.IntRange(0, 249).Draw(t, "stall") == 137 {
 			f.Kind = "stall" // costs the receiver's (shortened) read timeout: kept rare
+		}
+		if f.Kind == "otherkey" {
+			if c.OtherKey == nil {
+				c.OtherKey = genOtherKey(t)
+			}
+			if f.otherKeyMust() && pbt.Known(knownOtherKey) {
+				// known finding: an envelope signed with ANOTHER key of the receiver's key set is accepted;
+				// the same envelope signed with a key the receiver does not hold takes its place
+				pbt.Excluded(knownOtherKey)
+				f.Kind = "wrongkey"
+			}
 		}
 		switch f.Kind {
 		case "rcode":
@@ -1840,6 +2040,22 @@ func genCase(t *rapid.T) xferCase {
 		if rapid.IntRange(0, 3).Draw(t, "query-first") == 0 {
 			c.Rounds[0], c.Rounds[len(c.Rounds)-1] = c.Rounds[len(c.Rounds)-1], c.Rounds[0]
 		}
+	}
+	// one dns.Transfer value used for several transfers, a fresh connection each time
+	switch {
+	case c.Sender == "harness" && c.Dial == "" && c.BadRequest == "" && c.Transport == "" && !big:
+		if rapid.IntRange(0, 11).Draw(t, "reuse") == 0 {
+			c.Reuse = rapid.IntRange(1, 2).Draw(t, "reuse-n")
+		}
+	case c.Sender == "library" && c.multi():
+		if rapid.IntRange(0, 2).Draw(t, "reuse-rounds") == 0 {
+			c.Reuse = 1
+		}
+	}
+	if c.reuseTimersClass() && pbt.Known(knownReuse) {
+		// known finding: the second signed request of a reused Transfer is digested timers-only
+		pbt.Excluded(knownReuse)
+		c.Reuse = 0
 	}
 	if big {
 		target := rapid.SampledFrom([]int{65535, 65535, 65535, 65534, 65533, 65535 - 256, 32768, 16384}).Draw(t, "envsize")
